@@ -42,20 +42,54 @@ def unaddr(b, e):
     return e
 
 
-def rw1(F, R):
+def rw1(F, R, only_stop=False):
     c = G.context(F)
     if not G.need_mutators(c, R, "RW1", ("bind",)):
         return
     b = c.mut["bind"]
     ins = [e for e in c.ev["bind"] if e.kind == "edges_call"]
-    ok = [e for e in ins if e.op == "insert" and is_param_vertex(e.x, 2) and len(e.args) == 2 and
+
+    def insert_that_stops_when_full(e):
+        """micromap's `insert` (asserts room for a new key), or `checked_insert` whose `None` (= full, key absent) is unwrapped"""
+        if e.op == "insert":
+            return True
+        if e.op != "checked_insert":
+            return False
+        raw = getattr(e, "raw", None)
+        site = raw.site if raw is not None else e.site
+        for u in c.raw["bind"]:
+            if u.kind == "call" and u.name in ("unwrap", "expect") and u.args and \
+                    mentions(u.args[0], lambda x: x[0] == "call" and x[1].endswith("::checked_insert") and len(x) > 3 and x[3] == site[0]):
+                return True
+        return None
+    ok = [e for e in ins if e.op in ("insert", "checked_insert") and is_param_vertex(e.x, 2) and len(e.args) == 2 and
           strip_load(e.args[0]) == ("param", 4) and strip_load(e.args[1]) == ("param", 3)]
+    if only_stop:
+        # C07's clause only: every edge insert of bind() stops with a panic when the vertex is full
+        for e in ins:
+            if e.op in ("insert", "checked_insert") and insert_that_stops_when_full(e):
+                R.ok("RW1", e.where(), "the edge insert stops with a panic when the vertex already has N labels")
+            elif e.op in ("insert", "checked_insert"):
+                R.bad("RW1", "RW1/Sodg::bind/edge-insert-may-be-dropped", e.where(),
+                      "bind() uses the non-panicking `checked_insert` and ignores its answer: the limit overrun does not stop with a panic")
+            elif e.op not in ("clear", "remove", "get", "iter", "len", "contains_key", "is_empty"):
+                R.bad("RW1", "RW1/Sodg::bind/edge-write-shape/%s" % e.op, e.where(), "bind() changes an edge map by an unrecognised operation")
+        R.floor("RW1", "edge inserts in bind()", len(ins), 1, b.where())
+        return
+    dropped = False
+    for e in list(ok):
+        if insert_that_stops_when_full(e) is None:
+            ok.remove(e)
+            R.bad("RW1", "RW1/Sodg::bind/edge-insert-may-be-dropped", e.where(),
+                  "bind() uses the non-panicking `checked_insert` and ignores its answer: on a vertex that already has N labels the edge "
+                  "is silently not recorded (kid() misses it) and the limit overrun does not stop with a panic")
+            dropped = True
     for e in ins:
         if e not in ok:
             R.bad("RW1", "RW1/Sodg::bind/edge-write-shape/%s" % e.op, e.where(),
                   "bind(v1, v2, a) changes an edge map other than by `edges(v1).insert(a, v2)`",
                   {"target": show(e.x, e.body), "args": [show(a, e.body) for a in e.args]})
-    if not ok:
+    if not ok and not dropped:
         R.bad("RW1", "RW1/Sodg::bind/no-edge-insert", b.where(), "bind(v1, v2, a) does not perform edges(v1).insert(a, v2)")
     for e in ok:
         guards = e.conditions()
